@@ -338,8 +338,13 @@ class LocalStorageBackend(StorageBackend):
         live table (#45).
         """
         full_prefix = self._resolve_path(prefix)
-        if not os.path.exists(full_prefix):
+        try:
+            os.stat(full_prefix)
+        except FileNotFoundError:
             return []
+        # (any other stat failure propagates: a listing that cannot be
+        # produced must surface as an error, never as a short list -
+        # os.path.exists() would have turned an I/O error into "[]")
 
         base_path = self._real_base_path()
         result = []
